@@ -66,7 +66,7 @@ def case(draw, tier):
     elif op in ("transpose", "flatten", "dicts", "columns"):
         cell = st.one_of(gen.scalar, gen.value)
         c["table"] = draw(gen.table(list(hdr), [cell] * nf, max_rows=maxrows, min_rows=1 if op == "dicts" else 0))
-        c["missing"] = draw(st.sampled_from([None, "M"]))
+        c["missing"] = draw(st.sampled_from([None, "M", None, "M", 0, "", False]))
         c["period_delta"] = draw(st.sampled_from([0, 0, 1, -1]))
     elif op == "pivot":
         hdr = ["r", "c", "v"] + list(draw(st.lists(st.sampled_from(["x", "y"]), max_size=1)))
@@ -77,7 +77,7 @@ def case(draw, tier):
         cols = {"r": st.sampled_from(rp), "c": st.sampled_from(cp), "v": st.integers(0, 9), "x": st.integers(0, 2), "y": st.none()}
         c["table"] = draw(gen.table(list(hdr), [cols[f] for f in hdr], max_rows=maxrows + 2))
         c["agg"] = draw(st.sampled_from(["sum", "list", "len"]))
-        c["missing"] = draw(st.sampled_from([None, "M"]))
+        c["missing"] = draw(st.sampled_from([None, "M", None, "M", 0, "", False]))
     else:
         fi = draw(st.integers(0, nf - 1))
         other = st.one_of(gen.scalar, TEXT)
@@ -99,7 +99,7 @@ def case(draw, tier):
         c["table"] = draw(gen.table(list(hdr), cols, max_rows=maxrows))
         c["field"] = draw(st.sampled_from([hdr[fi], fi]))
         c["include_original"] = draw(st.booleans())
-        c["missing"] = draw(st.sampled_from([None, "M"]))
+        c["missing"] = draw(st.sampled_from([None, "M", None, "M", 0, "", False]))
     return c
 
 
